@@ -63,6 +63,17 @@ pub fn arch_check(ctx: &Ctx, arch: Arch, stream: u64, rule: &str) -> i32 {
             report.violations.push(write_replay(ctx, "native-linear", &bytes, &f));
         }
     }
+    // coverage-guided campaigns over the generators' choice buffers (thorough only)
+    {
+        let (m1, m2) = match arch {
+            Arch::X86 => ("lin-x86", "core-x86"),
+            Arch::A64 => ("lin-a64", "core-a64"),
+            Arch::Rv => ("lin-rv", "core-rv"),
+        };
+        let lcfg = lin_cfg_for(ctx, arch);
+        crate::fuzzrun::semantic_phase(ctx, &mut ev, &mut report, m1, stream + 1000, "linear", 450, &|b| run_lin_case(ctx, arch, &decode_lin(&lcfg, b), false).0);
+        crate::fuzzrun::semantic_phase(ctx, &mut ev, &mut report, m2, stream + 1100, "core-pipeline", 450, &|b| run_core_lin_case(ctx, arch, b, false).0);
+    }
     let infra: u64 = ev.discards.iter().filter(|(k, _)| k.starts_with("infra")).map(|(_, v)| *v).sum();
     if infra > 0 {
         report.infra_errors.push(format!("{infra} cases hit an infrastructure problem (see evidence)"));
